@@ -96,7 +96,7 @@ def opsPosterior (a : Array String) : Option String :=
     let ni := tokNat a (2 + ns)
     some (toString (bcastOffset shape (natList a (3 + ns) ni)))
   | "estw" =>
-    -- estw <mean|sal|integ> F K T tieF tieK tieT intMinus2 <eps> <γ F*K*T> <sal F*T>
+    -- estw <mean|sal|integ> F K T tieF tieK tieT intMinus2 <eps (sal) / tiny (integ)> <γ F*K*T> <sal F*T>
     let F := tokNat a 2; let K := tokNat a 3; let T := tokNat a 4
     let tie := tieOf a 5
     let i2 := tokNat a 8 == 1
@@ -105,7 +105,7 @@ def opsPosterior (a : Array String) : Option String :=
     let γ : Fin F → Fin K → Fin T → Float := fun f k t => fl a og ((f.val*K + k.val)*T + t.val)
     let sal : Fin F → Fin T → Float := fun f t => fl a os (f.val*T + t.val)
     let rule : WeightRule Float :=
-      if a[1]! == "mean" then .mean i2 else if a[1]! == "sal" then .saliency i2 eps else .integration
+      if a[1]! == "mean" then .mean i2 else if a[1]! == "sal" then .saliency i2 eps else .integration eps
     let w := mixWeight rule tie γ sal
     some (fmtFloats ((List.finRange F).flatMap fun f => (List.finRange K).flatMap fun k =>
       (List.finRange T).map fun t => w f k t))
